@@ -17,7 +17,8 @@ CFG = {
             "arguments naming the accounts (right/wrong/empty passphrase, null pointers); a keystore signature is observed by the verif counter (when the "
             "hook is in the tree) and always by name-independent evidence (65-byte signature recovering to a keystore account, signed raw transaction, "
             "keystore-signed transaction appearing in the pool, keystore-sealed block). Non-trivial = a call on which a signing entry point was entered.",
-    "tie": {"rpc.isProtectedMethodName": "gen (string constants translated; refused unless a pure disjunction) + corr (exposed sets)",
+    "tie": {"rpc.isProtectedMethodName (mini-translator)": "translated (go/ssa -> Lean on every run; isProtectedMethodName_code_is_model, pow_signers_are_protected_by_code)",
+            "rpc.isProtectedMethodName": "gen (string constants translated; refused unless a pure disjunction) + corr (exposed sets)",
             "rpc.(*Server).RegisterName": "gen (caller-suffix flag table, filter shape) + corr (exposed sets under all 32 environments)",
             "node.(*Node).startInProc/startIPC/startHTTP/startWS": "gen (registrars of RegisterName) + corr (exposed sets under three module configurations)",
             "node.(*Node).apis, aqua.(*Aquachain).APIs, aquaapi.GetAPIs, engine.APIs": "gen (rpc.API literals reachable from startRPC) + corr (exposed sets)",
